@@ -114,18 +114,31 @@ impl Obs {
 }
 
 /// Run `f` on a real `Replica` built over (a proxy around) `st`; the storage is put back
-/// afterwards whatever happened.
+/// afterwards whatever happened -- also when the returned future is dropped half-way or unwinds
+/// (a simulated process stop): the uncommitted transaction is then simply lost.
 pub async fn with_replica<S, R, F>(st: &mut S, ctl: Arc<Ctl>, f: F) -> R
 where
     S: Storage + Default,
     F: AsyncFnOnce(&mut Replica<Proxy<S>>) -> R,
 {
+    struct Restore<'a, S: Storage> {
+        st: &'a mut S,
+        back: Arc<std::sync::Mutex<Option<S>>>,
+    }
+    impl<S: Storage> Drop for Restore<'_, S> {
+        fn drop(&mut self) {
+            if let Some(s) = self.back.lock().unwrap().take() {
+                *self.st = s;
+            }
+        }
+    }
     let inner = std::mem::take(st);
     let (proxy, back) = Proxy::new(inner, ctl);
+    // declared before the replica so that it is dropped after it
+    let _restore = Restore { st, back };
     let mut rep = Replica::new(proxy);
     let r = f(&mut rep).await;
     drop(rep);
-    *st = back.lock().unwrap().take().expect("storage handed back");
     r
 }
 
